@@ -13,6 +13,7 @@
 package c15
 
 import (
+	"strings"
 	"bytes"
 	"fmt"
 	"io"
@@ -176,7 +177,7 @@ func run(p *kernel.Plan) (res *kernel.Result) {
 		// no task may park while holding the library's write lock
 		eOut.NoWriteGates = true
 	} else {
-		eConn.YieldOnClose, eConn.YieldOnDeadline = true, true
+		eConn.YieldOnClose, eConn.YieldOnDeadline, eConn.YieldOnErrInspect = true, true, true
 		eConn.EnforceDeadline = true // a write parked past its deadline (stall fault) times out
 	}
 	var under *websocket.Conn
@@ -478,6 +479,11 @@ func run(p *kernel.Plan) (res *kernel.Result) {
 		res.Stat("race_engine_runs", 1)
 		res.Stat("releases_left_blocked_on_a_real_lock", int64(s.RealBlocked))
 		if err != nil {
+			for _, u := range stuck {
+				if strings.HasSuffix(u, "@blocked-in-library") {
+					return res.Fail("C15/no-progress", "deadlock inside the library: %v %v", err, stuck)
+				}
+			}
 			return res.Fail("harness/race-engine-run", "%v %v", err, stuck)
 		}
 		return res
@@ -773,7 +779,7 @@ func (f *flag) Ready() bool { return f.v != 0 }
 func (f *flag) set() { f.v = 1 }
 
 var Check = &kernel.Check{
-	ID: "C15", Gen: gen, Run: run, Bubble: !raceEngine, Race: raceEngine,
+	ID: "C15", Gen: gen, Run: run, Bubble: !raceEngine, Race: raceEngine, ResetPools: true,
 	LibPaths: []string{"/repo/", "go-oryx-lib"},
 	Simpler:  map[string][]int64{"rsegIn": {0}, "wb": {4096, 256}, "role": {0, 1}},
 }
